@@ -3,7 +3,7 @@
    model's processTransactions verdict (error class) and the unspent set after
    apply_block are compared with the implementation's, op by op; the model state
    follows the implementation's accepted blocks *)
-Definition mism_ops := Eval vm_compute in flat_fail replay_txn_mism cases_hist 0.
+Definition mism_ops := Eval vm_compute in flat_fail (replay_txn_mism rel_c02) cases_hist 0.
 Print mism_ops.
 (* the premises of the theorems hold on what was explored *)
 Definition premises_ok := Eval vm_compute in forallb premises_b cases_hist.
